@@ -44,8 +44,11 @@ OnTrick(s, e) == RepIf(e.got # TrickDecode(e.raw), s, V("trick-mode-decode", s, 
 
 OnDur(s, e) ==
   LET got == <<e.secs, e.nanos>> IN
-  RepIf(got # DurationHi(e.base, e.ext), s,       \* the sum, then truncated to nanoseconds (not each term truncated on its own)
-        V("duration", s, e, [base |-> e.base, ext |-> e.ext, got |-> got, want |-> DurationHi(e.base, e.ext)]))
+  LET s1 == RepIf(got # DurationHi(e.base, e.ext), s,       \* the sum, then truncated to nanoseconds (not each term truncated on its own)
+                  V("duration", s, e, [base |-> e.base, ext |-> e.ext, got |-> got, want |-> DurationHi(e.base, e.ext)]))
+  \* Time(): the same count of nanoseconds, taken from the Unix epoch
+  IN RepIf("tsecs" \in DOMAIN e /\ <<e.tsecs, e.tnanos>> # DurationHi(e.base, e.ext), s1,
+           V("time", s, e, [base |-> e.base, ext |-> e.ext, got |-> <<e.tsecs, e.tnanos>>, want |-> DurationHi(e.base, e.ext)]))
 
 Step(s, e, i) ==
   LET s0 == [s EXCEPT !.at = i] IN
